@@ -279,13 +279,13 @@ let beh (fields : string list) : string =
       if ann = "ctr" then begin
         let g = fun _ -> Ok res in
         let full = obind (wrap_full t g) (fun w -> w arg) in
-        let prog = Printf.sprintf "let f | %s = fun x => std.deep_seq x (%s) in f (%s)" (src_ty t) (src_dv res) (src_dv arg) in
+        let prog = Printf.sprintf "let f | %s = fun x => std.deep_seq (x | Dyn) (%s) in f (%s)" (src_ty t) (src_dv res) (src_dv arg) in
         String.concat "\t" [show_outcome full; show_outcome full; prog]
       end else begin
         let g = fun _ -> check b res in
         let full = obind (wrap_full t g) (fun w -> w arg) in
         let dflt = obind (wrap_static t g) (fun w -> w arg) in
-        let prog = Printf.sprintf "let f : %s = fun x => std.deep_seq x ((%s) | %s) in f (%s)"
+        let prog = Printf.sprintf "let f : %s = fun x => std.deep_seq (x | Dyn) ((%s) | %s) in f (%s)"
                      (src_ty t) (src_dv res) (src_ty b) (src_dv arg) in
         String.concat "\t" [show_outcome dflt; show_outcome full; prog]
       end
@@ -298,7 +298,7 @@ let beh (fields : string list) : string =
       let dflt = obind (wrap2_static t h) (fun w -> w arg) in
       let cbsrc = if cbkind = "data" then Printf.sprintf "(%s)" (src_dv r)
                   else Printf.sprintf "(fun x => std.deep_seq x (%s))" (src_dv r) in
-      let prog = Printf.sprintf "let f : %s = fun cb => std.deep_seq (cb ((%s) | %s)) ((%s) | %s) in f %s"
+      let prog = Printf.sprintf "let f : %s = fun cb => std.deep_seq ((cb ((%s) | %s)) | Dyn) ((%s) | %s) in f %s"
                    (src_ty t) (src_dv a0) (src_ty a) (src_dv c0) (src_ty c) cbsrc in
       String.concat "\t" [show_outcome dflt; show_outcome full; prog]
   | _ -> "BADLINE"
